@@ -159,7 +159,7 @@ func c07Notify(p *Prog, ls *Lockset, r *Report) {
 		fn := impls[0]
 		base := FnName(fn)
 		ib.val = inboundVal{Cls: "none", Ack: "nil"}
-		e := ib.engine()
+		e := ib.newEngine()
 		e.Effect = func(site ssa.CallInstruction, f *pathFacts) string {
 			ef := ib.effect(site, f)
 			if ef == "notify" && isDiscoveryCmd(callArgs(site.Common())[1]) {
